@@ -39,6 +39,51 @@ def type_mutants(rng, prog, k):
     return out
 
 
+USE = {"Int": "{x} + 1", "Float": "{x} + 1.5", "Str": "{x} + \"t\"", "Bool": "{x} and True"}
+
+
+def container_flows():
+    """values whose declared container type has one wrong-typed component, flowing through an annotated definition, a
+    parameter, a return type and a method parameter, then destructured / indexed and used at the declared component type.
+    Either the checker rejects, or the program runs without a type error."""
+    out = []
+    prims = ["Int", "Str", "Bool", "Float"]
+    val = {t: VALUES[t][0] for t in prims}
+    for arity in (2, 3):
+        for decl in ([("Int", "Str"), ("Str", "Int"), ("Int", "Int"), ("Bool", "Str"), ("Float", "Str")] if arity == 2 else [("Int", "Str", "Int"), ("Str", "Str", "Int"), ("Int", "Bool", "Str")]):
+            for wrong_at in [None] + list(range(arity)):
+                for wrong_ty in prims:
+                    actual = list(decl)
+                    if wrong_at is not None:
+                        if wrong_ty == decl[wrong_at] or (wrong_ty == "Int" and decl[wrong_at] == "Float"):
+                            continue
+                        actual[wrong_at] = wrong_ty
+                    elif wrong_ty != "Int":
+                        continue
+                    ty = "(" + ", ".join(decl) + ")"
+                    v = "(" + ", ".join(val[t] for t in actual) + ")"
+                    names = ["c%d" % i for i in range(arity)]
+                    uses = "".join("print(%s)\n" % USE[t].replace("{x}", n) for n, t in zip(names, decl))
+                    tag = "tuple%d/%s/wrong@%s=%s" % (arity, "-".join(decl), wrong_at, wrong_ty if wrong_at is not None else "-")
+                    out.append((tag + "/def", "def t: %s := %s\ndef (%s) := t\n%s" % (ty, v, ", ".join(names), uses)))
+                    out.append((tag + "/param", "def f(t: %s) -> Int =>\n    def (%s) := t\n%s    0\ndef r := f(%s)\n" % (ty, ", ".join(names), "".join("    " + l + "\n" for l in uses.strip().split("\n")), v)))
+                    out.append((tag + "/return", "def f() -> %s => %s\ndef (%s) := f()\n%s" % (ty, v, ", ".join(names), uses)))
+                    out.append((tag + "/method", "class K\n    def m(self, t: %s) -> Int =>\n        def (%s) := t\n%s        0\ndef r := K().m(%s)\n" % (ty, ", ".join(names), "".join("        " + l + "\n" for l in uses.strip().split("\n")), v)))
+                    out.append((tag + "/local", "def w := %s\ndef t: %s := w\ndef (%s) := t\n%s" % (v, ty, ", ".join(names), uses)))
+    for coll, lit in (("List", "[%s]"), ("Set", "{%s}")):
+        for decl in prims:
+            for actual in prims:
+                if actual == "Int" and decl == "Float":
+                    continue
+                tag = "%s/%s/elem=%s" % (coll, decl, actual)
+                v = lit % ", ".join([val[actual]] * 2)
+                use = "for e in c do print(%s)\n" % USE[decl].replace("{x}", "e")
+                out.append((tag + "/def", "def c: %s[%s] := %s\n%s" % (coll, decl, v, use)))
+                out.append((tag + "/param", "def f(c: %s[%s]) -> Int =>\n    %s    0\ndef r := f(%s)\n" % (coll, decl, use, v)))
+                out.append((tag + "/return", "def f() -> %s[%s] => %s\ndef c := f()\n%s" % (coll, decl, v, use)))
+    return out
+
+
 def run(chk):
     thorough = chk.tier == "thorough"
     ok = chk.build_harness()
@@ -51,6 +96,8 @@ def run(chk):
         return
     rng = chk.rng
     cases = matrix()
+    flows = container_flows()
+    cases += flows if thorough else [c for c in flows if c[0].endswith(("/def", "/param"))] + rng.sample(flows, 150)
     progs = [gen_prog.Gen(rng).program() for _ in range(120 if thorough else 25)]
     cases += [("generated", p.text) for p in progs]
     for p in progs:
@@ -85,4 +132,4 @@ def run(chk):
                          "cases": len(cases), "stats": stats}
     chk.cov["evaluations"] = len(cases)
     chk.cov["distinct_nontrivial"] = len(distinct)
-    chk.cov["rule"] = "distinct accepted programs executed: (type, operator, type) matrix over Int/Float/Str/Bool, unary minus, interpolation, generated programs and their single-literal type-changing mutants"
+    chk.cov["rule"] = "distinct accepted programs executed: (type, operator, type) matrix over Int/Float/Str/Bool, unary minus, interpolation, generated programs and their single-literal type-changing mutants; tuple/list/set values with one wrong-typed component flowing through definitions, parameters, returns and method parameters"
